@@ -30,6 +30,17 @@ def selectH : Handler := fun j => do
   pure <| Json.mkObj [("order", natListJ (select itol etol cands)),
     ("verdicts", Json.arr (cands.map fun c => Json.bool (isFeasible itol etol c.gt c.eq)).toArray)]
 
-def handlers : List (String × Handler) := [("solrec.feasible", feasH), ("solrec.select", selectH)]
+def asMu (j : Json) : M (Nat × List Rat) := do
+  pure (← getNat j "i", ← asRatList (← getField j "mu"))
+
+def candsH : Handler := fun j => do
+  let n ← getNat j "n"
+  let v ← asRatList (← getField j "v")
+  let mus ← asList (← getField j "mus") asMu
+  let M ← asRatMat (← getField j "M")
+  let d : DualIn := { n := n, v := v, mus := mus, M := M }
+  pure <| Json.mkObj [("cands", listJ ratListJ (dualAgeCands d))]
+
+def handlers : List (String × Handler) := [("solrec.feasible", feasH), ("solrec.select", selectH), ("solrec.dual_age_cands", candsH)]
 
 end Sageopt.Drv.Solrec
